@@ -22,6 +22,14 @@ type Layout struct {
 	ExtraParens bool
 	// Indent canonical output.
 	NoIndent bool
+	// Inflate, when set, inserts extra lines (blank lines, full-line comments,
+	// multi-line block comments) at line breaks between tokens, drawing from its
+	// own PRNG so that the layout choices drawn from R are unaffected. LineMap
+	// then maps every line of the un-inflated rendering on which a token starts
+	// to its line in this rendering.
+	Inflate *rand.Rand
+	LineMap map[int]int
+	// FuncLines records, per Func.ID-less pointer order, nothing; see Func fields.
 }
 
 type printer struct {
@@ -32,8 +40,10 @@ type printer struct {
 	indent      int
 	atBOL       bool
 	lastTok     int       // line of the last token emitted
+	baseLine    int       // line number had no inflation happened
 	prevStmtEnd int       // byte offset right after the previous statement in the same block (-1 none)
 	onFirst     func(int) // receives the line of each token of the active site
+	funcKwLine  int       // line of the most recent `function` keyword
 }
 
 // Render prints the chunk, filling Site and Func line fields in place.
@@ -44,7 +54,10 @@ func Render(c *Chunk, lay *Layout) string {
 	if lay.EOL == "" {
 		lay.EOL = "\n"
 	}
-	p := &printer{lay: lay, line: 1, atBOL: true, prevStmtEnd: -1}
+	p := &printer{lay: lay, line: 1, baseLine: 1, atBOL: true, prevStmtEnd: -1}
+	if lay.Inflate != nil {
+		lay.LineMap = map[int]int{}
+	}
 	p.block(c.Body)
 	if !p.atBOL {
 		p.newline()
@@ -119,6 +132,25 @@ func IsIdent(s string) bool {
 func (p *printer) newline() {
 	p.sb.WriteString(p.lay.EOL)
 	p.line++
+	p.baseLine++
+	if r := p.lay.Inflate; r != nil {
+		// line-monotone edit: material that occupies whole extra lines
+		for k := r.Intn(4); k > 0; k-- {
+			switch r.Intn(4) {
+			case 0:
+				p.sb.WriteString("   -- inserted comment " + strconv.Itoa(r.Intn(1000)))
+			case 1:
+				p.sb.WriteString("--[[ inserted")
+				p.sb.WriteString(p.lay.EOL)
+				p.line++
+				p.sb.WriteString("block ]]")
+			case 2:
+				p.sb.WriteString("\t")
+			}
+			p.sb.WriteString(p.lay.EOL)
+			p.line++
+		}
+	}
 	p.atBOL = true
 	p.prev = ""
 }
@@ -172,10 +204,20 @@ func (p *printer) tokNB(t string, noBreakBefore bool) {
 	} else if p.needSpace(p.prev, t) {
 		p.sb.WriteByte(' ')
 	}
+	if p.lay.LineMap != nil {
+		if _, ok := p.lay.LineMap[p.baseLine]; !ok {
+			p.lay.LineMap[p.baseLine] = p.line
+		}
+	}
+	if t == "function" {
+		p.funcKwLine = p.line
+	}
 	p.sb.WriteString(t)
 	// tokens may contain raw newlines (long strings)
 	if strings.ContainsAny(t, "\n\r") {
-		p.line += countLines(t)
+		k := countLines(t)
+		p.line += k
+		p.baseLine += k
 	}
 	p.lastTok = p.line
 	p.prev = t
@@ -453,6 +495,10 @@ func (p *printer) funcBody(f *Func, defLine int) { p.funcBodySkip(f, defLine, 0)
 func (p *printer) funcBodySkip(f *Func, defLine int, skip int) {
 	f.LineDefined = defLine
 	p.tNB("(")
+	f.DefFirst = p.funcKwLine
+	if f.DefFirst == 0 || f.DefFirst > defLine {
+		f.DefFirst = defLine
+	}
 	for i, n := range f.Params[skip:] {
 		if i > 0 {
 			p.t(",")
@@ -466,6 +512,7 @@ func (p *printer) funcBodySkip(f *Func, defLine int, skip int) {
 		p.t("...")
 	}
 	p.t(")")
+	f.DefLast = p.lastTok
 	// nested function bodies have their own statement chain
 	savedPrev := p.prevStmtEnd
 	savedOn := p.onFirst
